@@ -560,7 +560,7 @@ pub fn check(ctx: &mut Ctx) -> i32 {
     ctx.max_shrink_iters = 12;
     let quick = ctx.quick();
     let strat = move || strategy(if quick { vec![1, 2] } else { vec![1, 2, 3, 4] }, 20);
-    let n = ctx.by(3, 12);
+    let n = ctx.by(3, 150);
     if let Some(f) = explore(ctx, &acc, "l3-connection-lifecycles", "c17", &strat, n, ctx.workers, run_case) {
         report_violation(ctx, "c17", &serde_json::to_value(&f.case).unwrap(), &f.fail);
         write_evidence(ctx, &acc, RULE, ASSUME, 1);
